@@ -17,7 +17,7 @@ pub fn prop() -> Prop {
     id: "C19",
     rule: "case = (1..4 tasks handed to the scheduler at t=0 or later: one-shot (OnceTask, NormalReturn), subscribing one-shot (OnceTask, SubscribeReturn of a probe subscription), repeating (RepeatTask with period 1..3 that declines after k runs), future-driven (FutureTask over a future that waits on the clock); delay none / 0 / 1 / 3 ticks; history of <= 10 steps: advance the clock, run the executor, run the i-th ready task, cancel handle i (unsubscribe), sample is_closed() of handle i, schedule the next task; executor FIFO-prompt, FIFO-late or any-ready-task-next). \
            Oracle: a one-shot body runs at most once and, once everything due has been run, exactly once unless cancelled before; never before (time it was scheduled + delay); a repeating task's sequence numbers are 0,1,2,... one period apart at least, and it stops for good when it declines or is cancelled; after unsubscribe() returned the body never starts; a subscribing task cancelled after it ran has its product unsubscribed exactly once, cancelled before it ran never creates one; once is_closed() returned true the body does not run later. Non-trivial: a cancel between scheduling and completion, or >= 2 tasks ready at once. Distinct by hash(case). \
-           Part `threads` (engine T): a one-shot or subscribing task (delay none or 1 tick) is scheduled on a harness-driven multi-thread scheduler (VerifSpawner); a worker thread polls queued tasks / advances the clock while another thread calls unsubscribe() on the handle and raises a flag when it has returned; the task body contains a yield point between an enter and a leave mark; schedule = <= 3 preemptions. Oracle: the body is not entered with the flag raised and is not inside (entered, not left) at the moment the flag is raised; the product of a subscribing task that ran is unsubscribed exactly once after a cancel.",
+           Part `threads` (engine T): a one-shot or subscribing task (delay none or 1 tick) is scheduled on a harness-driven multi-thread scheduler (VerifSpawner); a worker thread polls queued tasks / advances the clock while another thread calls unsubscribe() on the handle (or two threads on clones of a shared MutArc<Option<TaskHandle>> cell) and raises a flag when it has returned; the task body contains a yield point between an enter and a leave mark; schedule = <= 3 preemptions. Oracle: the body is not entered with the flag raised and is not inside (entered, not left) at the moment the flag is raised; the product of a subscribing task that ran is unsubscribed exactly once after a cancel.",
     assumptions: &["threads part: sequentially consistent interleavings at lock-acquisition granularity plus one yield inside the task body"],
     parts: vec![
       Part { name: "task-histories", run: run_case, tape_len: 64, quick_cases: 600_000, thorough_cases: 12_000_000, exhaustive_depth: None, exhaustive_budget: 0, exh_quick: false },
@@ -390,8 +390,10 @@ fn run_threads(c: &mut dyn Choices, ctx: &Ctx) -> Outcome {
   let delay = if c.flag() { Some(1u64) } else { None };
   let w_ops: Vec<bool> = (0..(1 + c.pick(4))).map(|_| c.pick(3) == 0).collect(); // true = advance
   let cancel_after: usize = c.pick(2); // canceller first does this many no-op yields
+  let shared = c.pick(3) == 0;
+  let nthreads = if shared { 3 } else { 2 };
   let k = c.pick(4);
-  let mut preemptions: Vec<(u64, usize)> = (0..k).map(|_| (1 + c.pick(20) as u64, c.pick(2))).collect();
+  let mut preemptions: Vec<(u64, usize)> = (0..k).map(|_| (1 + c.pick(20) as u64, c.pick(nthreads))).collect();
   preemptions.sort();
   preemptions.dedup_by_key(|p| p.0);
 
@@ -400,11 +402,22 @@ fn run_threads(c: &mut dyn Choices, ctx: &Ctx) -> Outcome {
   let queue = Arc::new(TaskQueue::default());
   let sched = queue.spawner();
   let d = delay.map(ticks);
-  let handle: Box<dyn SubHandle + Send> = if subscribing {
-    Box::new(sched.schedule(OnceTask::new(t_once_sub, world.clone()), d))
+  let mut handle: Option<Box<dyn SubHandle + Send>> = None;
+  let mut shared_handles: Option<(Box<dyn SubHandle + Send>, Box<dyn SubHandle + Send>)> = None;
+  if shared {
+    use rxrust::rc::MutArc;
+    if subscribing {
+      let cell = MutArc::own(Some(sched.schedule(OnceTask::new(t_once_sub, world.clone()), d)));
+      shared_handles = Some((Box::new(cell.clone()), Box::new(cell)));
+    } else {
+      let cell = MutArc::own(Some(sched.schedule(OnceTask::new(t_once, world.clone()), d)));
+      shared_handles = Some((Box::new(cell.clone()), Box::new(cell)));
+    }
+  } else if subscribing {
+    handle = Some(Box::new(sched.schedule(OnceTask::new(t_once_sub, world.clone()), d)));
   } else {
-    Box::new(sched.schedule(OnceTask::new(t_once, world.clone()), d))
-  };
+    handle = Some(Box::new(sched.schedule(OnceTask::new(t_once, world.clone()), d)));
+  }
   let worker: Box<dyn FnOnce() + Send> = {
     let q = queue.clone();
     let ops = w_ops.clone();
@@ -418,10 +431,12 @@ fn run_threads(c: &mut dyn Choices, ctx: &Ctx) -> Outcome {
       }
     })
   };
-  let canceller: Box<dyn FnOnce() + Send> = {
+  // with `shared` the handle sits in a MutArc<Option<..>> cell (the form in which debounce / throttle keep
+  // their task) and two threads cancel through clones of that cell
+  let mk_canceller = |handle: Box<dyn SubHandle + Send>, waits: usize| -> Box<dyn FnOnce() + Send> {
     let w = world.clone();
     Box::new(move || {
-      for _ in 0..cancel_after {
+      for _ in 0..waits {
         engine_t::explicit_yield();
       }
       engine_t::call_begin();
@@ -437,7 +452,15 @@ fn run_threads(c: &mut dyn Choices, ctx: &Ctx) -> Outcome {
       engine_t::call_end();
     })
   };
-  let stats = engine_t::run_threads(vec![worker, canceller], preemptions.clone(), 2_000);
+  let mut bodies: Vec<Box<dyn FnOnce() + Send>> = vec![worker];
+  if shared {
+    let (h1, h2) = shared_handles.expect("shared handles");
+    bodies.push(mk_canceller(h1, cancel_after));
+    bodies.push(mk_canceller(h2, 1));
+  } else {
+    bodies.push(mk_canceller(handle.expect("handle"), cancel_after));
+  }
+  let stats = engine_t::run_threads(bodies, preemptions.clone(), 2_000);
   if stats.verdict == TV::Completed {
     for _ in 0..4 {
       while queue.run_one() {}
@@ -464,9 +487,9 @@ fn run_threads(c: &mut dyn Choices, ctx: &Ctx) -> Outcome {
     other => Verdict::Violation { sig: format!("threads:{}:{name}", match other { TV::Deadlock(_) => "deadlock", TV::LostWakeup(_) => "lost-wakeup", TV::Panic(_) => "panic", _ => "livelock" }), detail: format!("{other:?}") },
   };
   let desc = if ctx.want_desc || matches!(verdict, Verdict::Violation { .. }) {
-    Some(json!({"task": name, "delay": delay, "worker(true=advance,false=run one task)": w_ops, "canceller_waits": cancel_after, "preemptions(step->thread; 0=worker 1=canceller)": preemptions, "marks(mark, flag)": format!("{marks:?}")}))
+    Some(json!({"task": name, "handle": if shared {"MutArc<Option<TaskHandle>> cell, two cancelling threads"} else {"TaskHandle, one cancelling thread"}, "delay": delay, "worker(true=advance,false=run one task)": w_ops, "canceller_waits": cancel_after, "preemptions(step->thread; 0=worker 1=canceller)": preemptions, "marks(mark, flag)": format!("{marks:?}")}))
   } else {
     None
   };
-  Outcome { verdict, nontrivial: stats.preemptions_taken > 0, hash: hash_of(&(subscribing, delay, &w_ops, cancel_after, &preemptions)), labels: vec!["part:threads"], notes: vec![], desc }
+  Outcome { verdict, nontrivial: stats.preemptions_taken > 0, hash: hash_of(&(subscribing, shared, delay, &w_ops, cancel_after, &preemptions)), labels: vec!["part:threads"], notes: vec![], desc }
 }
